@@ -998,10 +998,23 @@ func runCase(c *rig.Ctx, cs Case, record bool) bool {
 		f = checkSched(c, cs)
 	case "real":
 		_, f = runReal(c, cs)
-	case "e2e":
-		_, f = runE2E(c, cs)
-	case "e2eshape":
-		f = runShapes(c, cs)
+	case "e2e", "e2eshape":
+		run := func() *failure {
+			if cs.Kind == "e2e" {
+				_, g := runE2E(c, cs)
+				return g
+			}
+			return runShapes(c, cs)
+		}
+		f = run()
+		// "not forwarded and not answered 429" is the one end-to-end clause that a hiccup of the rig on a loaded
+		// machine (an upstream dial that fails) can imitate: it counts only when a second, fresh run shows it again
+		if f != nil && f.class == "c06.e2e.not-429" {
+			if g := run(); g == nil || g.class != f.class {
+				c.Count("e2e:not-429-not-confirmed-by-second-run")
+				f = g
+			}
+		}
 	case "hist":
 		f = checkHist(c, cs)
 		if f != nil && record && len(cs.Hist) > 1 {
